@@ -452,6 +452,21 @@ func init() {
 				}
 			}
 		}
+		if mode == "c11" {
+			// roots where a capturing promotion is on offer but a quiet move is best: the move ordering then searches the promotion
+			// FIRST, before the best move of the previous iteration -- "the first root move is the old best move" does not hold
+			for _, fen := range []string{"nr4k1/1P1q4/8/8/4N3/8/8/6K1 w - - 0 1", "6k1/8/8/4n3/8/8/1p1Q4/NR4K1 b - - 0 1",
+				"1rn3k1/1P1q4/8/8/4N3/8/8/6K1 w - - 0 1", "1k4rn/4q1P1/8/8/3N4/8/8/1K6 w - - 0 1"} {
+				for d := 2; d <= maxD; d++ {
+					for k := 0; k < 2; k++ {
+						printSched(runSchedule(fen, "go infinite", phase{engine.VsRootMoveDone, d, k}, []string{"stop"}, 0))
+						count++
+					}
+					printSched(runSchedule(fen, "go movetime 120", phase{engine.VsRootMoveDone, d, 0}, nil, 130))
+					count++
+				}
+			}
+		}
 		fmt.Fprintf(os.Stderr, "STATS sched total=%d\n", count)
 	}
 	// commands with no search alive: must neither block nor crash
